@@ -277,15 +277,6 @@ class Evaluator(object):
 
     def stmt(self, st, env):
         if isinstance(st, ast.Assign):
-            sd = st.value
-            if isinstance(sd, ast.Call) and isinstance(sd.func, ast.Attribute) and sd.func.attr == "setdefault" and isinstance(sd.func.value, ast.Name) and len(sd.args) == 2 and not sd.keywords and sd.func.value.id in env and not _is_module_term(env[sd.func.value.id]):
-                # x = d.setdefault(k, v)  is  d.setdefault(k, v); x = d[k]
-                self.expr_stmt(ast.copy_location(ast.Expr(value=sd), st), env)
-                key = self.ev(sd.args[0], env)
-                v = tm.sub(env[sd.func.value.id], key)
-                for tg in st.targets:
-                    self.assign(tg, v, env, st)
-                return env
             v = self.ev(st.value, env)
             for tg in st.targets:
                 self.assign(tg, v, env, st)
@@ -706,7 +697,8 @@ class Evaluator(object):
             # statement-level effects on local names
             if isinstance(v.func, ast.Attribute) and v.func.attr in MUTATOR_METHODS:
                 root = _root_name(v.func.value)
-                if root is not None and root in env and not _is_module_term(env[root]):
+                already = any(x.kind == "mutate" and x.node is v and x.d.get("applied") for x in self.summary.sites[-6:])
+                if root is not None and root in env and not _is_module_term(env[root]) and not already:
                     # reuse the terms computed when the call expression was evaluated (no second evaluation, no duplicate sites)
                     cs = None
                     for x in reversed(self.summary.sites):
@@ -1010,7 +1002,14 @@ class Evaluator(object):
             callee = "." + mname
             self.site("call", node, callee=callee, fn=None, base=base, args=args, kw=kw, term=t, via_filter=False, method=mname)
             if mname in MUTATOR_METHODS and not _is_module_term(base):
-                self.site("mutate", node, how="method:" + mname, old=base, root=_root_name(node.func.value), key=tm.none(), val=tm.tup(args), target=node.func.value)
+                ms = self.site("mutate", node, how="method:" + mname, old=base, root=_root_name(node.func.value), key=tm.none(), val=tm.tup(args), target=node.func.value)
+                if mname == "setdefault" and isinstance(node.func.value, ast.Name) and node.func.value.id in env and len(args) == 2 and not kw:
+                    # d.setdefault(k, v) used as an expression: the dict is updated here and the value is d[k]
+                    root = node.func.value.id
+                    env[root] = tm.upd(env[root], "method:setdefault", tm.none(), tm.tup(args))
+                    ms.d["new"] = env[root]
+                    ms.d["applied"] = True
+                    return tm.sub(env[root], args[0])
             return t
         dist = self.distribute_ite(fn, args, kw, node, via_filter) if self._wants_distribution(fn, args, kw) else None
         if dist is not None:
